@@ -259,7 +259,7 @@ func cmdAPI(in, out string) error {
 			})
 			b, _ := json.Marshal(map[string]any{"pkg": f.Name.Name, "calls": calls})
 			res.Out = string(b)
-		case "histobs2":
+		case "histobs2", "histobs2d":
 			// package name and, per statement, the call terms of the code: a term is a call of a function that is
 			// not one of the transparent wrappers, with its arguments as terms (integer literals, identifiers, calls)
 			f, err := parser.ParseFile(token.NewFileSet(), "x.go", r.Src, parser.ParseComments)
@@ -267,7 +267,29 @@ func cmdAPI(in, out string) error {
 				res.Err = err.Error()
 				break
 			}
-			b, _ := json.Marshal(map[string]any{"pkg": f.Name.Name, "body": histTerms(f)})
+			body := histTerms(f)
+			if r.Op == "histobs2d" {
+				// ... preceded by one leaf per function declaration: name, number of parameters and of results
+				decls := []*HistTerm{}
+				for _, im := range f.Imports {
+					nm := ""
+					if im.Name != nil {
+						nm = im.Name.Name + " "
+					}
+					decls = append(decls, &HistTerm{F: "id:import " + nm + im.Path.Value, Args: []*HistTerm{}})
+				}
+				for _, d := range f.Decls {
+					if fd, ok := d.(*ast.FuncDecl); ok {
+						np, nr := fd.Type.Params.NumFields(), 0
+						if fd.Type.Results != nil {
+							nr = fd.Type.Results.NumFields()
+						}
+						decls = append(decls, &HistTerm{F: fmt.Sprintf("id:func %s/%d/%d", fd.Name.Name, np, nr), Args: []*HistTerm{}})
+					}
+				}
+				body = append(decls, body...)
+			}
+			b, _ := json.Marshal(map[string]any{"pkg": f.Name.Name, "body": body})
 			res.Out = string(b)
 		case "cmtobs":
 			o, err := observeComments(r.Src)
